@@ -246,6 +246,19 @@ def rand_tri(rng, n, lower=True):
     return L
 
 
+def rand_general(rng, n):
+    """non-singular integer matrix that is neither triangular nor symmetric (n > 1); determinant of either sign"""
+    while True:
+        M = [[rng.randint(-2, 2) for _ in range(n)] for _ in range(n)]
+        try:
+            f_inv(M)
+        except StopIteration:
+            continue
+        if n == 1 or (any(M[i][j] != 0 for i in range(n) for j in range(n) if j > i) and
+                      any(M[i][j] != 0 for i in range(n) for j in range(n) if j < i) and M != f_T(M)):
+            return M
+
+
 def rand_spd(rng, n):
     L = rand_tri(rng, n)
     return [[int(v) for v in r] for r in f_mm(L, f_T(L))]
@@ -277,7 +290,7 @@ def gauss_param(rng, form, ptype, n):
         if form in ("cov", "prec"):
             M = rand_spd(rng, n)
         else:
-            M = rand_tri(rng, n, lower=(ptype != "uppermatrix"))
+            M = rand_general(rng, n) if ptype == "generalmatrix" else rand_tri(rng, n, lower=(ptype != "uppermatrix"))
         p = "(PMatrix %s)" % cqm(M)
         val = np.array(M, dtype=float)
         if form == "cov":
@@ -463,13 +476,19 @@ def make_geometry(spec, n):
         return Image2D((spec[1], spec[1]))
     if k == "cont2d":
         return Continuous2D((spec[1], spec[1]))
-    if k in ("mapped+grad", "mapped"):
+    if k in ("mapped+grad", "mapped", "mapped+grad+imap"):
         ga, gb, gc = [float(F(a)) for a in spec[1:4]]
 
         class _MG(MappedGeometry):
             pass
-        g = _MG(Continuous1D(n), map=lambda x: ga * x * x + gb * x + gc)
-        if k == "mapped+grad":
+        if k == "mapped+grad+imap":
+            # affine map (ga = 0) WITH its inverse: fun2par is available, so a route that forgets the geometry's own
+            # derivative and converts the function-space vector back with fun2par returns a (wrong) vector, not an error
+            assert ga == 0 and gb != 0
+            g = _MG(Continuous1D(n), map=lambda x: gb * x + gc, imap=lambda u: (u - gc) / gb)
+        else:
+            g = _MG(Continuous1D(n), map=lambda x: ga * x * x + gb * x + gc)
+        if k != "mapped":
             g.gradient = lambda direction, wrt: direction * (2 * ga * wrt + gb)
         return g
     if k == "step":
@@ -526,7 +545,102 @@ def make_model(ms):
     raise ValueError(k)
 
 
+SEP_ATTRS = {"Cauchy": ["location", "scale"], "Beta": ["alpha", "beta"], "InvGamma": ["shape", "location", "scale"],
+             "SmoothedLaplace": ["location", "scale", "beta"], "Uniform": ["low", "high"], "LognormalDiag": ["mean", "cov"]}
+
+
+def _assign(obj, meta, field, value):
+    """re-assign one attribute of a live object (the public way: plain attribute assignment)"""
+    fam = meta["fam"]
+    with warnings.catch_warnings():
+        warnings.simplefilter("ignore")
+        if fam == "gauss":
+            if field == "mean":
+                obj.mean = mean_value(value)
+            else:
+                setattr(obj, meta["form"], gauss_value({"ptype": value["ptype"], "param": value["param"]}))
+        elif fam == "gmrf":
+            if field == "mean":
+                obj.mean = mean_value(value)
+            else:
+                obj.prec = float(F(value))
+        elif fam == "cmrf":
+            if field == "loc":
+                obj.location = mean_value(value)
+            else:
+                obj.scale = float(F(value))
+        elif fam == "sep":
+            k = int(field[3:])
+            v = float(F(value[1])) if value[0] == "s" else fa(value[1])
+            sf = meta["sfam"]
+            if sf == "LognormalDiag":
+                n = meta["n"]
+                v = (v * np.ones(n) if np.isscalar(v) else v) if k == 0 else (v * np.eye(n) if np.isscalar(v) else v)
+            elif sf in ("Beta", "InvGamma") or (sf == "SmoothedLaplace" and k < 2):
+                v = np.atleast_1d(np.asarray(v, dtype=float))
+            setattr(obj, SEP_ATTRS[sf][k], v)
+        elif fam == "lik":
+            if field == "data":
+                obj.data = fa(value)
+            else:
+                setattr(obj.distribution, meta["form"], gauss_value({"ptype": value["ptype"], "param": value["param"]}))
+        elif fam == "lognormal-full":
+            if field == "mean":
+                obj.mean = fa(value)
+            else:
+                obj.cov = um(value)
+        else:
+            raise ValueError("no re-assignment for " + fam)
+
+
+def _field_value(meta, field):
+    fam = meta["fam"]
+    if field == "param":
+        return {"ptype": meta["ptype"], "param": meta["param"]}
+    if fam == "sep":
+        return meta["pars"][int(field[3:])]
+    return meta[field]
+
+
 def build(meta):
+    """returns (object, dim).  With meta['hist'] = {init: {field: value}, steps: [[field, value], ...], x0}: the object is
+    constructed with the INITIAL values, evaluated, every step re-assigns one attribute and evaluates again, and finally the
+    touched attributes are re-assigned to the values in the regular fields: the object handed back has a history, its
+    current parameters are the regular fields of meta."""
+    h = meta.get("hist")
+    if not h:
+        return _build0(meta)
+    m0 = {k: v for k, v in meta.items() if k != "hist"}
+    for field, value in h["init"].items():
+        if field == "param":
+            m0["ptype"], m0["param"] = value["ptype"], value["param"]
+        elif m0["fam"] == "sep":
+            m0["pars"] = list(m0["pars"])
+            m0["pars"][int(field[3:])] = value
+        else:
+            m0[field] = value
+    obj, dim = _build0(m0)
+    x0 = fa(h["x0"])
+
+    def touch():
+        observe(lambda: obj.gradient(x0))
+        try:
+            logd_of(obj)(x0)
+        except Exception:
+            pass
+    touch()
+    touched = list(h["init"].keys())
+    for field, value in h["steps"]:
+        _assign(obj, meta, field, value)
+        touch()
+        if field not in touched:
+            touched.append(field)
+    for field in touched:
+        _assign(obj, meta, field, _field_value(meta, field))
+    return obj, dim
+
+
+def _build0(meta):
     """returns (object whose gradient/logd are observed, dim of the evaluated variable)"""
     import cuqi
     from cuqi.distribution import (Gaussian, GMRF, CMRF, Cauchy, Beta, InverseGamma, Lognormal, SmoothedLaplace,
@@ -539,7 +653,8 @@ def build(meta):
             kw = {"geometry": meta["n"]} if (meta["mean"][0] == "s" and meta["ptype"] == "scalar") else {}
             return Gaussian(mean_value(meta["mean"]), **{meta["form"]: val}, **kw), meta["n"]
         if fam == "gmrf":
-            geom = meta["n"] if meta["pd"] == 1 else make_geometry([meta["geo2"], meta["N"]], meta["n"])
+            geom = (meta["n"] if meta.get("geo1", "default") == "default" else make_geometry([meta["geo1"]], meta["n"])) if meta["pd"] == 1 \
+                else make_geometry([meta["geo2"], meta["N"]], meta["n"])
             import io, contextlib
             with contextlib.redirect_stdout(io.StringIO()):
                 return GMRF(mean_value(meta["mean"]), float(F(meta["prec"])), bc_type=meta["bc"], order=meta["order"], geometry=geom), meta["n"]
@@ -732,9 +847,46 @@ def classify_failure(meta, o, obj, x):
     return "C03|%s|%s" % (meta.get("cellname", fam), o[0])
 
 
-def verdict_case(meta, o, obj, x, dim, insupp=True, hs=None, fd=False):
+def input_style_failure(meta, obj, dim, kw=None):
+    """the same point handed in as an int array, a non-contiguous view, a read-only array, a CUQIarray (and by keyword where
+    the object is evaluated by parameter name): the gradient must be the same numbers as for a plain float64 array, and
+    the caller's array must not be written to"""
+    from cuqi.array import CUQIarray
+    rs = np.random.RandomState(dim * 7919 + len(meta.get("cellname", "")))
+    xi = rs.randint(1, 4, dim)                       # integer-valued, positive (inside every support used with this helper)
+    ref = observe(lambda: obj.gradient(xi.astype(float)))
+    if ref[0] != "vec":
+        return None
+    big = np.zeros(2 * dim)
+    big[::2] = xi
+    ro = xi.astype(float)
+    ro.setflags(write=False)
+    styles = [("int64 array", lambda: xi.copy()), ("non-contiguous view", lambda: big[::2]), ("read-only array", lambda: ro),
+              ("CUQIarray", lambda: CUQIarray(xi.astype(float), geometry=getattr(obj, "geometry", None)))]
+    for name, mk in styles:
+        arg = mk()
+        before = np.array(arg, dtype=float, copy=True)
+        o = observe(lambda: obj.gradient(arg))
+        if o[0] == "raised":
+            continue                                  # a refusal is allowed
+        if o[0] != "vec" or not vclose(o[1], ref[1], 1e-12):
+            return "gradient at %s handed in as %s is %r but %r for a float64 array" % (xi.tolist(), name, o[1] if len(o) > 1 else o[0], ref[1])
+        if not np.array_equal(np.asarray(arg, dtype=float), before):
+            return "gradient() wrote into the caller's array (%s)" % name
+    if kw:
+        o = observe(lambda: obj.gradient(**{kw: xi.astype(float)}))
+        if o[0] != "raised" and (o[0] != "vec" or not vclose(o[1], ref[1], 1e-12)):
+            return "gradient(%s=...) differs from the positional call" % kw
+    return None
+
+
+def verdict_case(meta, o, obj, x, dim, insupp=True, hs=None, fd=False, styles=True, kw=None):
     d = property_verdict(o, obj, x, dim, insupp=insupp, hs=hs, fd=fd)
     if d is None:
+        if styles and meta.get("fam") in ("gauss", "gmrf", "cmrf", "lik", "post", "mlp", "lognormal-full", "large"):
+            d2 = input_style_failure(meta, obj, dim, kw=kw)
+            if d2:
+                return d2, "C03|%s|input-style" % meta.get("cellname", meta.get("fam"))
         return None, ""
     return d, classify_failure(meta, o, obj, x)
 
@@ -761,6 +913,7 @@ def run(ctx):
     cases += gen_dispatch(ctx, st)
     cases += gen_gallery(ctx, st)
     cases += gen_large(ctx, st)
+    cases += gen_history(ctx, st)
     return Result(cases=cases, rule=RULE,
                   extra={"repair_state": {s: ("repaired" if v else "defect present") for s, v in st.items()}},
                   assumptions=[
@@ -780,6 +933,7 @@ def gen_gauss_prior(ctx, st):
         ptypes = ["scalar", "vector", "diagmatrix", "matrix"]
         if form in ("sqrtcov", "sqrtprec"):
             ptypes.append("uppermatrix")
+            ptypes.append("generalmatrix")
         ptypes.append("sparsediag")
         for ptype in ptypes:
             for r in range(reps):
@@ -848,7 +1002,7 @@ def gen_gmrf(ctx, st):
     for bc in ("zero", "periodic", "neumann"):
         for order in (0, 1, 2):
             for pd in (1, 2):
-                for r in range(ctx.n(1, 4) if pd == 2 else ctx.n(3, 7)):
+                for r in range(ctx.n(2, 4) if pd == 2 else ctx.n(3, 7)):
                     if pd == 1:
                         # r == 0: fewer nodes than the stencil is wide (boundary patches overlap / empty operator)
                         n = rng.choice([2, 3]) if r == 0 else rng.randint(4, 7)
@@ -857,12 +1011,13 @@ def gen_gmrf(ctx, st):
                     else:
                         N = 3 if not (ctx.thorough and r % 2) else 4
                         n = N * N
-                        geo2 = rng.choice(["image2d", "cont2d"])
+                        geo2 = ["image2d", "cont2d"][r % 2]
                     if pd == 2 and n > 9 and not ctx.thorough:
                         continue
-                    meta = {"fam": "gmrf", "bc": bc, "order": order, "pd": pd, "n": n, "N": N, "geo2": geo2,
+                    geo1 = ["default", "cont1d", "discrete"][r % 3] if pd == 1 else None
+                    meta = {"fam": "gmrf", "bc": bc, "order": order, "pd": pd, "n": n, "N": N, "geo2": geo2, "geo1": geo1 or "default",
                             "mean": rand_mean(rng, n), "prec": P_(rpos(rng)), "x": pv(rvec(rng, n, -2, 2)), "x1": pv(rvec(rng, n, -2, 2)),
-                            "cellname": "gmrf/%s/order%d/%dd" % (bc, order, pd)}
+                            "cellname": "gmrf/%s/order%d/%s" % (bc, order, ("1d-" + geo1) if pd == 1 else ("2d-" + geo2))}
                     out.append(case_gmrf(meta, st))
     return out
 
@@ -909,6 +1064,10 @@ def rand_model(rng, kind, dom, m=None, n=None, ran=("default",)):
     return {"kind": kind, "A": pm(A), "B": pm(B), "m": m, "n": n, "dom": list(dom), "ran": list(ran)}
 
 
+def rand_mapped_imap(rng):
+    return ["mapped+grad+imap", P_(0), P_(rng.choice([Fraction(2), Fraction(-1, 2), Fraction(4), Fraction(3, 2)])), P_(rdy(rng, -1, 1))]
+
+
 def rand_mapped(rng, grad=True):
     ga = rng.choice([Fraction(1, 2), Fraction(1), Fraction(-1, 2), Fraction(1, 4)])
     gb = rng.choice([Fraction(1), Fraction(2), Fraction(-1), Fraction(1, 2)])
@@ -919,7 +1078,7 @@ def rand_mapped(rng, grad=True):
 def gen_lik(ctx, st):
     rng = ctx.rng
     out = []
-    doms_ok = [("default",), ("cont1d",), ("discrete",), "mapped+grad"]
+    doms_ok = [("default",), ("cont1d",), ("discrete",), "mapped+grad", "mapped+grad+imap"]
     forms = [("cov", "scalar"), ("cov", "vector"), ("cov", "matrix"), ("prec", "matrix"), ("prec", "diagmatrix"), ("sqrtcov", "scalar"),
              ("sqrtcov", "matrix"), ("prec", "scalar"), ("prec", "vector"), ("sqrtprec", "vector"), ("sqrtprec", "matrix"), ("sqrtprec", "scalar")]
     k = 0
@@ -929,7 +1088,7 @@ def gen_lik(ctx, st):
                 k += 1
                 if not ctx.thorough and (k % 3 != 0) and not (form == "cov" and ptype == "matrix"):
                     continue
-                d = rand_mapped(rng) if dom == "mapped+grad" else dom
+                d = rand_mapped(rng) if dom == "mapped+grad" else (rand_mapped_imap(rng) if dom == "mapped+grad+imap" else dom)
                 ms = rand_model(rng, kind, d)
                 lm = lik_meta(rng, ms, form, ptype)
                 lm["lstyle"] = ["to_likelihood", "call-name", "cond-param"][k % 3 if not ctx.thorough else (k // 3) % 3]
@@ -938,7 +1097,7 @@ def gen_lik(ctx, st):
     for kind in MODEL_KINDS:
         for dom in doms_ok:
             for ptype in ("scalar", "matrix") if ctx.thorough else ("matrix",):
-                d = rand_mapped(rng) if dom == "mapped+grad" else dom
+                d = rand_mapped(rng) if dom == "mapped+grad" else (rand_mapped_imap(rng) if dom == "mapped+grad+imap" else dom)
                 ms = rand_model(rng, kind, d)
                 out.append(case_lik(lik_meta(rng, ms, "cov", ptype, lognormal=True), st))
     # refusals: geometries without a derivative, models without a gradient, non-identity range geometry
@@ -996,7 +1155,7 @@ def case_lik(meta, st, expect_refusal=False):
         return Case(expr=expr, meta=meta, cell=meta["cellname"], kind="DECISION", trivial=True, impl_fail=d, signature=sig)
     f = logd_of(obj)
     dobs = f(th1) - f(th)
-    if ms["dom"][0] == "mapped+grad":
+    if ms["dom"][0] in ("mapped+grad", "mapped+grad+imap"):
         ga, gb, gc = [F(a) for a in ms["dom"][1:4]]
     else:
         ga, gb, gc = Fraction(0), Fraction(1), Fraction(0)
@@ -1146,10 +1305,10 @@ def case_sum(meta, st):
         d, sig = "gradient() is not reproducible: a second evaluation of the posterior / of its factors differs from the first", "C03|%s|not-reproducible" % meta["cellname"]
     # the posterior's own factors (if it exposes them) must be as many as were put in, plus the evaluated density of z
     nfac = len(getattr(obj, "_densities", comps))
-    guard = True
-    if meta["fam"] == "post" and type(obj).__name__ == "Posterior":
-        import cuqi
-        guard = type(obj.geometry) in cuqi.geometry._get_identity_geometries() or hasattr(obj.geometry, "gradient")
+    # Posterior's geometry guard, from the harness's own configuration: the only non-identity case generated is a
+    # user-defined likelihood without geometry (Posterior then has geometry None... of the likelihood: refusal)
+    guard = not (meta["fam"] == "post" and meta.get("style", "direct") == "direct" and meta["parts"][0].get("fam") == "ulik"
+                 and meta["parts"][0].get("geom", "none") == "none")
     extra_eval = bool(meta.get("const")) and type(obj).__name__ == "MultipleLikelihoodPosterior"
     parts_obs = po + ([("raised", "EvaluatedDensity")] if extra_eval else [])
     expr = "check_sum_obs %s %s %s && check_sum_logd %s %s && Nat.eqb %s %s" % (
@@ -1399,15 +1558,24 @@ def case_oos(meta, st):
                 signature=("C03|%s|%s" % (meta["cellname"], o[0])) if d else "")
 
 
+_MHN_STATE = {}
+
+
+def mhn_getters_return_alpha():
+    """C04's open finding: ModifiedHalfNormal.beta / .gamma return alpha.  Its state is read off ONE fixed witness object;
+    the parameters handed to the model are then the harness's own constructor values (never read back from the case's object)."""
+    if "v" not in _MHN_STATE:
+        from cuqi.distribution import ModifiedHalfNormal
+        w = ModifiedHalfNormal(2.0, 3.0, 5.0)
+        _MHN_STATE["v"] = (float(np.ravel(w.beta)[0]) == 2.0 and float(np.ravel(w.gamma)[0]) == 2.0)
+    return _MHN_STATE["v"]
+
+
 def sep_coq_pars(meta, obj):
-    """parameter lists handed to the model.  MHN: the values the object's own accessors return (the model takes the
-    family's three parameters as the object exposes them; whether beta/gamma are the constructor's belongs to C04)."""
+    """parameter lists handed to the model: the harness's own constructor values"""
     a, b, c = meta["pars"]
-    if meta["sfam"] == "MHN":
-        def acc(v):
-            arr = np.asarray(v, dtype=float).reshape(-1)
-            return [frac(t) for t in arr]
-        return [acc(obj.alpha), acc(obj.beta), acc(obj.gamma)]
+    if meta["sfam"] == "MHN" and mhn_getters_return_alpha():
+        b, c = a, a
     if meta["sfam"] == "LognormalDiag":
         b = [b[0], P_(1 / F(b[1]))] if b[0] == "s" else ["v", pv([1 / t for t in uv(b[1])])]
     return [[F(s[1])] if s[0] == "s" else uv(s[1]) for s in (a, b, c)]
@@ -1672,12 +1840,89 @@ def case_gallery(meta):
     return Case(expr="true", meta=meta, cell=meta["cellname"], kind="DECISION", trivial=False, impl_fail=d, signature=sig)
 
 
+# ---- attribute re-assignment histories: the gradient must be the derivative of the CURRENT logd ---------------------------
+def raw_param(val, ptype):
+    return (P_(Fraction(val)) if ptype == "scalar" else pv([Fraction(v) for v in val]) if ptype == "vector" else
+            pm([[Fraction(v) for v in r] for r in (val.toarray() if hasattr(val, "toarray") else np.asarray(val)).tolist()]))
+
+
+def gen_history(ctx, st):
+    rng = ctx.rng
+    out = []
+
+    def gparam(form, ptype, n):
+        val, _, _ = gauss_param(rng, form, ptype, n)
+        return {"ptype": ptype, "param": raw_param(val, ptype)}
+    reps = ctx.n(1, 4)
+    # Gaussian: every form, the parameter changes its kind (scalar <-> vector <-> matrix) and the mean changes
+    for form in ("cov", "prec", "sqrtcov", "sqrtprec"):
+        for fin in ("scalar", "vector", "matrix", "diagmatrix"):
+            for r in range(reps):
+                n = rng.randint(2, 3)
+                kinds = ["scalar", "vector", "matrix", "diagmatrix"]
+                p_fin, p_init, p_mid = gparam(form, fin, n), gparam(form, rng.choice(kinds), n), gparam(form, rng.choice(kinds), n)
+                meta = {"fam": "gauss", "form": form, "ptype": p_fin["ptype"], "param": p_fin["param"], "n": n, "mean": ["v", pv(rvec(rng, n, nonzero=True))],
+                        "x": pv(rvec(rng, n)), "x1": pv(rvec(rng, n)), "cellname": "history/gauss/%s->%s" % (form, fin),
+                        "hist": {"init": {"param": p_init, "mean": ["v", pv(rvec(rng, n, nonzero=True))]},
+                                 "steps": [["param", p_mid], ["mean", ["v", pv(rvec(rng, n))]]][: rng.randint(0, 2)], "x0": pv(rvec(rng, n))}}
+                out.append(case_gauss_prior(meta, st))
+    for bc in ("zero", "periodic", "neumann"):
+        for order in (0, 1, 2):
+            n = rng.randint(3, 5)
+            meta = {"fam": "gmrf", "bc": bc, "order": order, "pd": 1, "n": n, "N": n, "geo2": None, "geo1": rng.choice(["default", "cont1d"]),
+                    "mean": ["v", pv(rvec(rng, n, nonzero=True))], "prec": P_(rpos(rng)), "x": pv(rvec(rng, n, -2, 2)), "x1": pv(rvec(rng, n, -2, 2)),
+                    "cellname": "history/gmrf/%s/order%d" % (bc, order),
+                    "hist": {"init": {"mean": ["v", pv(rvec(rng, n))], "prec": P_(rpos(rng))}, "steps": [["prec", P_(rpos(rng))]][: rng.randint(0, 1)],
+                             "x0": pv(rvec(rng, n))}}
+            out.append(case_gmrf(meta, st))
+        n = rng.randint(3, 4)
+        meta = {"fam": "cmrf", "bc": bc, "pd": 1, "n": n, "N": n, "geo2": None, "loc": ["v", pv(rvec(rng, n, -2, 2, nonzero=True))], "scale": P_(rpos(rng)),
+                "x": pv(rvec(rng, n, -2, 2)), "x1": pv(rvec(rng, n, -2, 2)), "cellname": "history/cmrf/%s" % bc,
+                "hist": {"init": {"loc": ["s", P_(1)], "scale": P_(rpos(rng))}, "steps": [["loc", ["v", pv(rvec(rng, n))]]][: rng.randint(0, 1)], "x0": pv(rvec(rng, n))}}
+        out += case_cmrf(meta, st)
+    for sf in SEP_ATTRS:
+        for r in range(reps):
+            n = rng.randint(2, 3)
+            fin, ini, mid = sep_meta(rng, sf, n, True), sep_meta(rng, sf, n, True), sep_meta(rng, sf, n, True)
+            if sf == "Uniform":
+                ini = fin if rng.random() < 0.5 else ini
+            k = rng.randrange(len(SEP_ATTRS[sf]))
+            meta = dict(fin)
+            meta["cellname"] = "history/sep/%s" % sf
+            meta["hist"] = {"init": {"par%d" % j: ini["pars"][j] for j in range(len(SEP_ATTRS[sf]))},
+                            "steps": [["par%d" % k, mid["pars"][k]]] if (r % 2 and sf != "Uniform") else [], "x0": ini["x"]}
+            out += case_sep(meta, st)
+    for kind in MODEL_KINDS:
+        for (form, fin) in (("cov", "matrix"), ("prec", "vector"), ("sqrtprec", "scalar"), ("sqrtcov", "vector")):
+            if not ctx.thorough and rng.random() < 0.5:
+                continue
+            ms = rand_model(rng, kind, rng.choice([("default",), ("cont1d",)]))
+            meta = lik_meta(rng, ms, form, fin)
+            m = ms["m"]
+            meta["cellname"] = "history/lik/%s/%s-%s" % (kind, form, fin)
+            meta["hist"] = {"init": {"param": gparam(form, rng.choice(["scalar", "vector", "matrix"]), m), "data": pv(rvec(rng, m))},
+                            "steps": [["data", pv(rvec(rng, m))]][: rng.randint(0, 1)], "x0": pv(rvec(rng, ms["n"]))}
+            out.append(case_lik(meta, st))
+    for r in range(ctx.n(2, 8)):
+        n = rng.randint(2, 3)
+        meta = {"fam": "lognormal-full", "n": n, "mean": pv(rvec(rng, n, -1, 1, nonzero=True)), "cov": pm(rand_spd(rng, n)),
+                "x": pv([Fraction(rng.randint(2, 24), 8) for _ in range(n)]), "x1": pv([Fraction(rng.randint(2, 24), 8) for _ in range(n)]),
+                "cellname": "history/lognormal-full",
+                "hist": {"init": {"mean": pv(rvec(rng, n, -1, 1)), "cov": pm(rand_spd(rng, n))}, "steps": [["mean", pv(rvec(rng, n, -1, 1))]][: r % 2],
+                         "x0": pv([Fraction(rng.randint(2, 24), 8) for _ in range(n)])}}
+        out.append(case_lognormal_full(meta, st))
+    return out
+
+
 # ---- dimensions above config.MIN_DIM_SPARSE (sparse storage / eigen-decomposition paths): oracle only --------------
 LARGE_KINDS = ["cov-dense", "prec-dense", "sqrtcov-dense", "sqrtprec-dense", "cov-vector", "prec-vector", "sqrtprec-sparse-band",
                "cov-sparse-diag", "prec-scalar", "gmrf-1d", "gmrf-2d", "lik-cov-dense", "lik-sqrtprec-vector"]
 
 
 def build_large(meta):
+    """(object, dim, spec): spec describes the object to the model -- the symmetric operator (as a bigop term), whether it
+    is the covariance (inverse = True: certificates) or the precision, mean / data / model matrix -- from the harness's own
+    numbers (the GMRF difference matrix is read from the object: a certificate whose stencil belongs to C20)"""
     import scipy.sparse as sp
     from cuqi.distribution import Gaussian, GMRF
     from cuqi.model import LinearModel
@@ -1691,16 +1936,28 @@ def build_large(meta):
     vec = 2.0 ** rng.randint(-2, 3, n)
     if kind.startswith("gmrf"):
         geom = n if kind == "gmrf-1d" else (9, 9)
+        dim = 81 if kind == "gmrf-2d" else n
         with contextlib.redirect_stdout(io.StringIO()):
-            return GMRF(mean[:81] if kind == "gmrf-2d" else mean, 0.5, bc_type=meta["bc"], order=meta["order"], geometry=geom), (81 if kind == "gmrf-2d" else n)
+            G = GMRF(mean[:dim], 0.5, bc_type=meta["bc"], order=meta["order"], geometry=geom)
+        Dm = G._diff_op.get_matrix()
+        D = np.asarray(Dm.todense()) if hasattr(Dm, "todense") else np.asarray(Dm)
+        return G, dim, {"what": "prior", "inverse": False, "op": "(OScaled %s (OGram %s %s))" % (cqc(Fraction(1, 2)), cnat(dim), cqm(D)), "mean": fr(mean[:dim])}
+    ops = {"cov-dense": (True, "(OMat %s)" % cqm(spd)), "prec-dense": (False, "(OMat %s)" % cqm(spd)),
+           "sqrtcov-dense": (True, "(OGramT %s %s)" % (cnat(n), cqm(band))), "sqrtprec-dense": (False, "(OGram %s %s)" % (cnat(n), cqm(band))),
+           "cov-vector": (True, "(ODiag %s)" % cqv(fr(vec))), "prec-vector": (False, "(ODiag %s)" % cqv(fr(vec))),
+           "sqrtprec-sparse-band": (False, "(OGram %s %s)" % (cnat(n), cqm(band))), "cov-sparse-diag": (True, "(ODiag %s)" % cqv(fr(vec))),
+           "prec-scalar": (False, "(OScal %s)" % cqc(Fraction(1, 2))),
+           "lik-cov-dense": (True, "(OMat %s)" % cqm(spd)), "lik-sqrtprec-vector": (False, "(ODiag %s)" % cqv(fr(vec * vec)))}
+    inverse, op = ops[kind]
     if kind.startswith("lik"):
         B = rng.randint(-2, 3, (n, 3)).astype(float)
         par = {"cov": spd} if kind == "lik-cov-dense" else {"sqrtprec": vec}
-        return Gaussian(mean=LinearModel(B), **par).to_likelihood(mean), 3
+        return Gaussian(mean=LinearModel(B), **par).to_likelihood(mean), 3, {"what": "lik", "inverse": inverse, "op": op, "B": B, "data": fr(mean), "diag": vec * vec,
+                                                                            "solve": (lambda r: np.linalg.solve(spd, r)) if inverse else None}
     form, rest = kind.split("-", 1)
     val = {"dense": spd if form in ("cov", "prec") else band, "vector": vec, "sparse-band": sp.csc_matrix(band),
            "sparse-diag": sp.diags(vec), "scalar": 0.5}[rest]
-    return Gaussian(mean, **{form: val}), n
+    return Gaussian(mean, **{form: val}), n, {"what": "prior", "inverse": inverse, "op": op, "mean": fr(mean)}
 
 
 def gen_large(ctx, st):
@@ -1716,20 +1973,38 @@ def gen_large(ctx, st):
 
 
 def case_large(meta):
-    obj, dim = build_large(meta)
+    obj, dim, spec = build_large(meta)
     rng = np.random.RandomState(meta["seed"] + 1)
     x = rng.randint(-8, 9, dim) / 4.0
+    x1 = rng.randint(-8, 9, dim) / 4.0
     o = observe(lambda: obj.gradient(x))
+    o1 = observe(lambda: obj.gradient(x1))
+    logd_ok = True
     try:
-        logd_of(obj)(x)
+        f = logd_of(obj)
+        dobs = f(x1) - f(x)
     except NotImplementedError:
-        # sparse full matrices without cholmod: the object refuses to evaluate its own (normalised) logd -- nothing to differentiate
-        return Case(expr="true", meta=meta, cell=meta["cellname"] + "/logd-refused", kind="DECISION", trivial=True)
-    d, sig = verdict_case(meta, o, obj, x, dim)
+        # sparse full matrices without cholmod: the object refuses to evaluate its own (normalised) logd: only the formula is compared
+        logd_ok = False
+    d, sig = (verdict_case(meta, o, obj, x, dim) if logd_ok else (None, ""))
     if d is None and o[0] != "vec":
         d, sig = "no gradient vector for a dimension above MIN_DIM_SPARSE although logd is defined: %r" % (o[:1],), "C03|%s|%s" % (meta["cellname"], o[0])
-    # too large for Coq literals: the oracle (derivative of the same object's logd) alone speaks
-    return Case(expr="true", meta=meta, cell=meta["cellname"], kind="DECISION", impl_fail=d, signature=sig)
+    g, g1 = (o[1] if o[0] == "vec" else []), (o1[1] if o1[0] == "vec" else [])
+    inv = cbool(spec["inverse"])
+    if spec["what"] == "prior":
+        expr = "check_big %s %s %s %s %s && check_big %s %s %s %s %s" % (inv, spec["op"], cqv(spec["mean"]), cqv(fr(x)), cqvec(g),
+                                                                       inv, spec["op"], cqv(spec["mean"]), cqv(fr(x1)), cqvec(g1))
+    else:
+        B = spec["B"]
+        r = np.asarray([float(v) for v in spec["data"]]) - B @ x
+        # certificate for P (data - B theta): with a covariance-type operator the harness's own solve, CHECKED by the model (C w = r)
+        w = spec["solve"](r) if spec["inverse"] else None
+        if w is None:
+            w = spec["diag"] * r          # diagonal precision: the harness's own product, recomputed exactly and compared by the model
+        expr = "check_big_lik %s %s %s %s %s %s %s %s" % (inv, spec["op"], cnat(3), cqm(B), cqv(spec["data"]), cqv(fr(x)), cqvec(w), cqvec(g))
+    if logd_ok and spec["what"] == "prior":
+        expr += " && check_big_logd %s %s %s %s %s" % (cqvec(g), cqvec(g1), cqv(fr(x)), cqv(fr(x1)), cq(dobs))
+    return Case(expr=expr, meta=meta, cell=meta["cellname"] + ("" if logd_ok else "/logd-refused"), kind="EXACT", impl_fail=d, signature=sig)
 
 
 # ------------------------------------------------------------------------------------------------
